@@ -29,8 +29,9 @@ from pexpect.exceptions import EOF, TIMEOUT
 PROPERTY = 'C16'
 RULE = ('Hypothesis-generated command sequences (1-12 commands: single-line, multi-line, no output, output without final '
         'newline, output of 0..300 KB, incomplete constructs) x {bash, python} x {run_command, awaited run_command} on '
-        'real REPLs, one REPL per sequence.  Non-trivial: >= 3 commands including an incomplete one, or an output > 64 KB '
-        'followed by a small one.  Distinct by hash of the case.')
+        'real REPLs, one REPL per sequence; plus a REPL played by a scripted child that prints output and prompt in pieces '
+        'cut at generated offsets (mostly inside the prompt; outputs contain prompt prefixes), maxread in {1, 7, 64, 2000}.  Non-trivial: >= 3 commands including an incomplete one, or an output > 64 KB '
+        'followed by a small one, or (scripted) a prompt that arrived in pieces / maxread < 16.  Distinct by hash of the case.')
 ASSUMPTIONS = [
     'the command family is chosen so that the REPL prints exactly the constructed output (python: results are bound to _ '
     'so that the REPL does not echo a value)',
@@ -46,7 +47,7 @@ WORDS = ['ab', 'hello world', 'x', 'A1-b2', 'two  spaces', '>>>', '$ ', 'PEXPECT
 
 def shards(tier):
     q = tier == 'quick'
-    return [{'n': 4 if q else 100} for _ in range(12)]
+    return [{'n': 4 if q else 100} for _ in range(12)] + [{'kind': 'scripted', 'n': 40 if q else 1500} for _ in range(6)]
 
 
 @st.composite
@@ -222,8 +223,109 @@ def check_case(case, col=None):
         col.case(case, nt)
 
 
+# ---------------------------------------------------------------------------
+# scripted REPL: the same oracle with the read boundaries under control
+
+PIECES = ['a', 'b', ' ', '\r\n', '[', '[PEXPECT_', 'PEXPECT_PROMPT', '[PEXPECT_PROMP', '>', '+', 'PROMPT>', '\xe9', 'xyz' * 30]
+
+
+@st.composite
+def scripted_cases(draw):
+    """A REPL played by a scripted child: for every command line it prints the constructed output and the prompt
+    (the continuation prompt after a non-final line), cut into pieces at generated offsets - preferably inside the
+    prompt - with a pause between the pieces so that each piece is a read of its own."""
+    n = draw(st.integers(1, 5))
+    cmds = []
+    for _ in range(n):
+        nlines = draw(st.sampled_from([1, 1, 1, 2, 3]))
+        lines = []
+        for j in range(nlines):
+            out = ''.join(draw(st.lists(st.sampled_from(PIECES), min_size=0, max_size=6)))
+            prompt = replwrap.PEXPECT_PROMPT if j == nlines - 1 else replwrap.PEXPECT_CONTINUATION_PROMPT
+            full = out + prompt
+            if full.find(replwrap.PEXPECT_PROMPT) not in (-1, len(out)) or full.find(replwrap.PEXPECT_CONTINUATION_PROMPT) not in (-1, len(out)):
+                out = 'ok'
+                full = out + prompt
+            ncut = draw(st.integers(0, 3))
+            cuts = sorted(set(draw(st.one_of(st.integers(len(out), len(full) - 1), st.integers(len(out), len(full) - 1),
+                                             st.integers(0, len(full)))) for _ in range(ncut)))
+            lines.append({'out': out, 'cuts': cuts})
+        cmds.append(lines)
+    return {'kind': 'scripted', 'cmds': cmds, 'mode': draw(st.sampled_from(['sync', 'sync', 'async'])),
+            'maxread': draw(st.sampled_from([2000, 2000, 64, 7, 1]))}
+
+
+def check_scripted(case, col=None):
+    from ..engines import peers
+    P, C = replwrap.PEXPECT_PROMPT, replwrap.PEXPECT_CONTINUATION_PROMPT
+    actions = [['w', P.encode('utf-8').hex()]]
+    for lines in case['cmds']:
+        for j, ln in enumerate(lines):
+            full = ln['out'] + (P if j == len(lines) - 1 else C)
+            actions.append(['recuntil', b'\n'.hex()])
+            prev = 0
+            for c in ln['cuts'] + [len(full)]:
+                if c > prev:
+                    actions.append(['w', full[prev:c].encode('utf-8').hex()])
+                    actions.append(['s', 0.012])
+                    prev = c
+    actions.append(['recuntil', b'\x00never\x00'.hex()])
+    child, ps = peers.pty_peer(actions, raw=True, record=False, wait_ready=False, encoding='utf-8', timeout=20,
+                               maxread=case['maxread'])
+    loop = asyncio.new_event_loop() if case['mode'] == 'async' else None
+    split_inside = False
+    try:
+        with guard('REPLWrapper over an existing spawn', allow=()):
+            repl = replwrap.REPLWrapper(child, P, None)
+        for i, lines in enumerate(case['cmds']):
+            cmd = '\n'.join('line%d' % j for j in range(len(lines)))
+            want = ''.join(ln['out'] for ln in lines)
+            where = 'scripted REPL, command %d of %d (%d line(s), %s, maxread %d)' % (i, len(case['cmds']), len(lines), case['mode'], case['maxread'])
+            try:
+                with guard(where, allow=(EOF, TIMEOUT)):
+                    if loop is None:
+                        got = repl.run_command(cmd, timeout=10)
+                    else:
+                        got = loop.run_until_complete(repl.run_command(cmd, timeout=10, async_=True))
+            except TIMEOUT:
+                raise Violation('repl-timeout', '%s: TIMEOUT, the prompt was printed (in pieces cut at %r)'
+                                % (where, [ln['cuts'] for ln in lines]))
+            except EOF:
+                raise Violation('repl-eof', '%s: EOF' % where)
+            if got != want:
+                k = 0
+                while k < min(len(got), len(want)) and got[k] == want[k]:
+                    k += 1
+                raise Violation('wrong-output', '%s returned %d characters, its own output is %d characters; first difference '
+                                'at %d: got %r, expected %r' % (where, len(got), len(want), k, got[k:k + 40], want[k:k + 40]))
+            for ln in lines:
+                if any(len(ln['out']) < c for c in ln['cuts']):
+                    split_inside = True
+    finally:
+        peers.reap(child)
+        ps.cleanup()
+        if loop is not None:
+            try:
+                loop.run_until_complete(asyncio.sleep(0))
+            except Exception:
+                pass
+            loop.close()
+    if col is not None:
+        col.label('repl=scripted/%s' % case['mode'])
+        if split_inside:
+            col.label('prompt-arrives-in-pieces')
+        col.count('commands', len(case['cmds']))
+        col.case(case, split_inside or case['maxread'] < 16)
+
+
 def run_shard(spec, seed, idx, deadline_ts):
     col = Collector()
+    if spec.get('kind') == 'scripted':
+        def sbody(case, c):
+            with case_watchdog(120, 'C16 scripted REPL session'):
+                check_scripted(case, c)
+        run_batches(sbody, scripted_cases(), spec['n'], seed * 1000 + idx, col, batch=25, shrink=False, deadline_ts=deadline_ts)
+        return col
 
     def body(case, c):
         with case_watchdog(400, 'C16 REPL session'):
@@ -233,6 +335,8 @@ def run_shard(spec, seed, idx, deadline_ts):
 
 
 def replay(case, spec=None):
+    if case.get('kind') == 'scripted':
+        return check_scripted(case)
     check_case(case)
 
 
